@@ -170,3 +170,6 @@ PROPS['C13']['eb'] = [EB_WS]
 EB_FIXED = _findings_group(['engine_fixed_findings_stay_fixed'])
 EB_FIXED = dict(EB_FIXED, name='fixed-findings', filters=['findings::engine_fixed'])
 PROPS['C11']['eb'].append(EB_FIXED)
+
+EB_SVCTIME = {'name': 'service-time', 'crate': 'gneiss-mqtt', 'module_dir': 'gneiss_mqtt', 'filters': ['engine::service_time'], 'tests': ['service_time_contract_never_strands_work'], 'timeout': 3000}
+PROPS['C08']['eb'] = [EB_SVCTIME] + PROPS['C08'].get('eb', [])
